@@ -16,6 +16,7 @@ what the market aggregated.  Oracle: the same identities on the solved series, e
 import common
 import gen_common as G
 import gen_checks as GC
+import gen_main
 import gen_market
 import gen_asset
 
@@ -116,7 +117,7 @@ def run(ctx):
         rule=('same program generator as C01; targets: for every goods/labour/money/deposit market of the program '
               'the clearing, demand-membership, allocation and per-supplier identities, portfolio and default '
               'money-demand identities; non-trivial = program with at least one market; distinct by full program'))
-    out.proof = common.proof_status(FAMILY, PROPFILE)
+    out.proof = None
     out.trusted_base = [
         'Coq 8.16.1 kernel + vm_compute', 'axioms: Reals (sig_forall_dec, sig_not_dec), functional_extensionality_dep',
         'harness: EquationParser + Python ast -> Coq sys; demanders/suppliers/holders read from public object '
@@ -127,9 +128,10 @@ def run(ctx):
                        'keeps that constant as a summand: the identity is stated up to that constant 0']
     # booking-group models with theorems for ALL zones (coq/GenMarket, coq/GenAsset), each with its own
     # state correspondence and oracle
-    out.proof = common.merge_proofs([out.proof] + [common.proof_status(f, p) for f, p in gen_market.PROOFS + gen_asset.PROOFS])
+    out.proof = common.proof_status_many([(FAMILY, PROPFILE)] + gen_market.PROOFS + gen_asset.PROOFS + gen_main.PROOFS)
     gen_market.extra(ctx, out)
     gen_asset.extra(ctx, out)
+    # (the whole-pipeline correspondence of coq/GenMain runs in the C01 and C05 checks; here only its theorems are re-checked)
     return out
 
 
@@ -137,6 +139,8 @@ def replay(path):
     import json
     obj = json.load(open(path))
     kind = (obj.get('replay') or {}).get('kind')
+    if kind == 'main':
+        return gen_main.replay(obj)
     if kind == 'market':
         return gen_market.replay(obj)
     if kind == 'asset':
